@@ -284,6 +284,11 @@ CHECKS["C03"] = {
             "half, CONSERVATION OF VOLUME by the cavity retriangulation is proved in dimension 2 and 3 (interior cancellation over the "
             "removed simplices, added = hole faces ++ [pt] for the model, added volume = removed volume) under three explicit "
             "hypotheses about truthful geometry (opposite sides of shared facets, star-shaped cavity, non-degenerate removed simplices); "
+            "in dimension 2 the last two are now DERIVED: the Delaunay cavity is star-shaped w.r.t. the new point (pencil-of-circles "
+            "argument with the polynomial in-circle predicate, bridged to the implementation's centre/radius test at eps = 0), the "
+            "work-list loop asks every neighbour of a deleted simplex (bowyer_watson_neighbours_asked), so truthful in-circle answers + "
+            "a locally Delaunay, genuine triangulation around the cavity give area conservation of an accepted interior insertion "
+            "(bowyer_watson_truthful_preserves_area_2d); "
             "the rest (facets in <= 2 simplices, every vertex used, hull extension, Delaunay) stays the visible, unproved "
             "tiles_hull_statement (index clause: tiles_hull_partial); all of it is audited exactly on the real object after every "
             "insertion, where it fails on degenerate/anisotropic inputs (known findings). Tie: exact lock-step of "
@@ -309,7 +314,9 @@ CHECKS["C04"] = {
             "lnd_ask_fresh_statement stays a stated Prop. In dimension 2 the geometric side conditions are DERIVED from the modelled point choice "
             "(Choose.lean) and barycentric test: the chosen point is the centroid or the midpoint of a longest edge in normalised coordinates, "
             "is accepted by point_in_simplex for its simplex and for the owning simplex, and lies in a rectangular domain (ChooseGeom2.lean; "
-            "lnd_*_dim2). Tie: real LearnerND in bit-exact lock-step (2-D/3-D, rect/ConvexHull, 3 losses, "
+            "lnd_*_dim2), and the two remaining state-level side conditions are INVARIANTS of reachable states (sub-triangulation vertices "
+            "accepted by their owner; all vertices in the domain) for histories whose told points lie in the domain (Props/C04Reach.lean: "
+            "lnd_*_reach; the guard is necessary - kernel-checked history with an out-of-domain tell, same as the Python). Tie: real LearnerND in bit-exact lock-step (2-D/3-D, rect/ConvexHull, 3 losses, "
             "scalar/vector, runner-like interleavings, non-committing asks, discards). Search: the clauses of C04 on the real "
             "learner after every op with exact rational geometry (incl. every pending point rebound by a tell subdivides every "
             "new simplex it lies in); every history is then replayed on a fresh learner with NOTHING observed in between (no "
